@@ -232,7 +232,7 @@ type c12Env struct {
 	addrOf    map[int32]string                  // live brokers: id -> current address
 	hostOf    map[int32]string
 	portOf    map[int32]int32 // ports other than 9092 (re-addressed brokers)
-	ids       []int32 // live broker ids
+	ids       []int32         // live broker ids
 	bootIDs   map[int32]bool
 	topics    []c12TopicCfg
 	leaders   map[string]int32 // "t/p" -> leader (scenario's book-keeping)
